@@ -213,6 +213,17 @@ def run_all_classes(ctx):
                 ctx.fail(v.key, v.what, v.case)
                 nd = 0
             ctx.case(('cls', cf, M, L), is_nontrivial(M, L, nd), labels=['all-classes'])
+    # data sets whose content looks like a file, a meta group, a command group or a PDU
+    for k, payload in enumerate(dg.magic_payloads()):
+        for M in (16, 140, 1024, 0x10000):
+            cf = dg.ALL_CF[(k + M) % len(dg.ALL_CF)]
+            spec = {'cf': cf, 'fields': default_fields(cf, k % 5), 'data': payload}
+            try:
+                nd = check_case(spec, M, 1 + 2 * k)
+            except Violation as v:
+                ctx.fail(v.key, v.what, v.case)
+                nd = 0
+            ctx.case(('magic', k, M), True, labels=['content-looks-like-something-else'])
 
 
 def run_interleaved(ctx):
